@@ -83,7 +83,7 @@ def do_run(sid, tier='quick'):
     finally:
         shutil.rmtree(root, ignore_errors=True)
         # the run above regenerated coq/gen/*.v from the CHANGED copy: regenerate them from /repo so that nothing stale is left behind
-        if pid in ('C09', 'C10'):      # only these two checks use the translator (and they must not run concurrently with each other)
+        if pid in ('C09', 'C10', 'C14'):      # only these checks use the translator (and they must not run concurrently with each other)
             sh([PY, os.path.join(VERIF, 'py', 'py2v.py')], env=dict(os.environ, PYTHONPATH='/repo/src:/verif/py'), cwd=VERIF)
     viol = [l for l in out2.split('\n') if l.startswith('VIOLATION')]
     concrete = [l for l in viol if 'no-failing-input-found' not in l]
@@ -135,7 +135,7 @@ if __name__ == '__main__':
         groups = {}
         for sid in sorted(os.listdir(SEEDED)):
             if os.path.exists(os.path.join(SEEDED, sid, 'meta.json')):
-                g = sid.split('_')[0]; g = 'C09' if g == 'C10' else g
+                g = sid.split('_')[0]; g = 'C09' if g in ('C10', 'C14') else g      # the translator writes coq/gen: these three run one after the other
                 if g in os.environ.get('SEEDED_SKIP', '').split(','): continue
                 if os.environ.get('SEEDED_MATCH') and not re.search(os.environ['SEEDED_MATCH'], sid): continue
                 groups.setdefault(g, []).append(sid)
